@@ -136,6 +136,23 @@ Definition run_stream_waits (a : list Z) : list Z :=
 (* CMD calc_blockdep = 7 : see model/Blockdep.v [parse_case] -> [status; blockdep] *)
 Definition run_calc_blockdep (a : list Z) : list Z := run_blockdep_case a.
 
+(* CMD hazard_stats = 8 : ncores lut_addr shram_usable max_dma max_kern words
+   -> [1; kernel pairs; with BLOCKDEP > 0; of those with IFM/OFM overlap; cross pairs tested; waits] | [0] *)
+Definition run_hazard_stats (a : list Z) : list Z :=
+  match a with
+  | nc :: la :: ss :: md :: mk :: ws =>
+      let hw := {| hw_ncores := nc; hw_lut_addr := la; hw_shram_size := ss |} in
+      let c := {| hz_hw := hw; hz_max_dma := md; hz_max_kern := mk |} in
+      match run_stream ws with
+      | Some evs =>
+          let '(n, np, no) := bd_stats None evs (0, 0, 0) in
+          let '(cp, cw) := cross_stats c q_init (hz_prog c evs 0) (0, 0) in
+          [1; n; np; no; cp; cw]
+      | None => [0]
+      end
+  | _ => [-1]
+  end.
+
 Definition run (cmd : Z) (a : list Z) : list Z :=
   if cmd =? 1 then run_waits_cmd a
   else if cmd =? 2 then run_rs_intersects a
@@ -144,4 +161,5 @@ Definition run (cmd : Z) (a : list Z) : list Z :=
   else if cmd =? 5 then run_check_hazards a
   else if cmd =? 6 then run_stream_waits a
   else if cmd =? 7 then run_calc_blockdep a
+  else if cmd =? 8 then run_hazard_stats a
   else [-1].
